@@ -217,9 +217,41 @@ fn read_no_index(shp: &[u8], rbuf: u32) -> Result<Option<(Vec<Item>, bool)>, Pan
     })
 }
 
-/// Read one image pair with index: sequential items and random access at every entry.
+/// Drain completely (up to the cap), errors included: with an index the iterator goes on to the
+/// next entry after an error, and a caller that skips errors sees every Ok item.
+fn drain_all<S: ToGeom, I: Iterator<Item = Result<S, shapefile::Error>>>(it: I, cap: usize) -> Vec<Item> {
+    let mut out = Vec::new();
+    let mut it = it;
+    loop {
+        let _ = it.size_hint();
+        let Some(x) = it.next() else { break };
+        if out.len() >= cap {
+            break;
+        }
+        out.push(x.map(|s| s.to_geom()).map_err(|e| classify(&e)));
+    }
+    out
+}
+
+/// The shapes a caller that skips errors gets from one iteration: they too must be shapes
+/// 0..j in order (an Ok item after an Err must not make the sequence skip or repeat a shape).
+fn ok_items_violation(items: &[Item], expected: &[Geom]) -> Option<String> {
+    let never = |_: usize, _: usize| false;
+    for (i, g) in items.iter().filter_map(|x| x.as_ref().ok()).enumerate() {
+        if i >= expected.len() {
+            return Some(format!("Ok item {} is a shape but only {} were written: {}", i, expected.len(), g.short()));
+        }
+        if let Some(d) = diff_read(&expected[i], g, i, &never) {
+            return Some(format!("Ok item {} (errors skipped) is not shape {}: {}; items: {:?}", i, i, d, items.iter().map(item_short).collect::<Vec<_>>()));
+        }
+    }
+    None
+}
+
+/// Read one image pair with index: sequential items, random access at every entry, then a
+/// second iteration on the same reader (the last random accesses may have failed), drained.
 #[allow(clippy::type_complexity)]
-fn read_with_index(shp: &[u8], shx: &[u8], rbuf: u32) -> Result<Option<(Vec<Item>, bool, Vec<Option<Item>>)>, PanicInfo> {
+fn read_with_index(shp: &[u8], shx: &[u8], rbuf: u32) -> Result<Option<(Vec<Item>, bool, Vec<Option<Item>>, Vec<Item>)>, PanicInfo> {
     guarded(|| {
         let mut r = match ShapeReader::with_shx(src(shp, rbuf), src(shx, rbuf)) {
             Ok(r) => r,
@@ -231,7 +263,8 @@ fn read_with_index(shp: &[u8], shx: &[u8], rbuf: u32) -> Result<Option<(Vec<Item
         for i in 0..n {
             nth.push(r.read_nth_shape(i).map(|x| x.map(|s| capture(&s)).map_err(|e| classify(&e))));
         }
-        Some((items, capped, nth))
+        let again = drain_all(r.iter_shapes(), item_cap(shp.len(), shx.len()));
+        Some((items, capped, nth, again))
     })
 }
 
@@ -328,11 +361,17 @@ fn judge(ctx: &mut Ctx, p: &Prepared, shp: &[u8], n_shp: usize, shx: &[u8], rbuf
         match read_with_index(shp, shx, rbuf) {
             Err(pi) => ctx.fail("C11", "panic", pi.site(), format!("indexed read of a crash image pair: {}", pi.text())),
             Ok(None) => ctx.stats.reach("indexed-open-failed"),
-            Ok(Some((items, capped, nth))) => {
+            Ok(Some((items, capped, nth, again))) => {
                 let _ = capped;
-                ctx.stats.steps += (items.len() + nth.len()) as u64 + 1;
+                ctx.stats.steps += (items.len() + nth.len() + again.len()) as u64 + 1;
                 if let Some(v) = prefix_violation(&items, &p.expected) {
                     ctx.fail("C11", "prefix", "shx", format!("indexed read: {}", v));
+                }
+                if let Some(v) = ok_items_violation(&again, &p.expected) {
+                    ctx.fail("C11", "prefix", "shx-after-random-access", format!("iteration after random access at every entry: {}", v));
+                }
+                if again.iter().any(|x| x.is_err()) && again.iter().skip_while(|x| x.is_ok()).any(|x| x.is_ok()) {
+                    ctx.stats.reach("ok-item-after-an-error-item");
                 }
                 let never = |_: usize, _: usize| false;
                 for (i, x) in nth.iter().enumerate() {
@@ -546,9 +585,12 @@ pub fn execute_path(scn: &CrashPathScn, ctx: &mut Ctx) {
     match read_with_index(&shp, &shx, 0) {
         Err(pi) => ctx.fail("C11", "panic", pi.site(), format!("{}: {}", what, pi.text())),
         Ok(None) => ctx.stats.reach("path-indexed-open-failed"),
-        Ok(Some((items, _, nth))) => {
+        Ok(Some((items, _, nth, again))) => {
             if let Some(v) = prefix_violation(&items, &expected) {
                 ctx.fail("C11", "prefix", "path:shx", format!("{}: {}", what, v));
+            }
+            if let Some(v) = ok_items_violation(&again, &expected) {
+                ctx.fail("C11", "prefix", "path:shx-after-random-access", format!("{}: iteration after random access at every entry: {}", what, v));
             }
             let never = |_: usize, _: usize| false;
             for (i, x) in nth.iter().enumerate() {
